@@ -2,11 +2,12 @@
 """tools/saveseed.py <worktree> <seed-id> <property> <caught_by csv> <detected yes|no> -- store a confirmed seeded change under /verif/seeded/<id>/"""
 import json, os, shutil, subprocess, sys
 wt, sid, prop, caught, detected = sys.argv[1:6]
+sd = os.environ.get("SEED", "_seed")
 d = f"/verif/seeded/{sid}"
 os.makedirs(d, exist_ok=True)
-shutil.copy(f"{wt}/_seed/patch.diff", f"{d}/patch.diff")
-shutil.copy(f"{wt}/_seed/demo.py", f"{d}/demo.py")
-notes = open(f"{wt}/_seed/notes.txt").read() if os.path.exists(f"{wt}/_seed/notes.txt") else ""
+shutil.copy(f"{wt}/{sd}/patch.diff", f"{d}/patch.diff")
+shutil.copy(f"{wt}/{sd}/demo.py", f"{d}/demo.py")
+notes = open(f"{wt}/{sd}/notes.txt").read() if os.path.exists(f"{wt}/{sd}/notes.txt") else ""
 meta = {
     "id": sid,
     "breaks_property": prop,
